@@ -61,3 +61,66 @@ for k in range(1, K + 1):
                     fail(violation="spec resolution differs from the reference", sequence=[(c, o) for c, o in seq[:pos + 1]], active=active.__name__,
                          executed=list(CALLS), expected_executed=want_calls, value=got_val, expected_value=want_val)
 print(json.dumps({"ok": True, "max_implementations": K, "evaluations": n}))
+
+# ---------------------------------------------------------------- implementations bound to ANOTHER spec instead of directly to a context
+# Spec y gets implementations for contexts over time; a third spec z may be bound to y (which makes the framework look at y's contexts early);
+# implementations of x are bound to a context or to y.  An implementation bound to y is declared for the contexts y was implemented for when
+# it was registered.  (No implementation of y is registered after an x implementation bound to y: what that would mean is not stated.)
+def impl_on(tag, spec, outcome):
+    @datasource(spec)
+    def thing(broker):
+        CALLS.append(tag)
+        if outcome == "skip":
+            raise SkipComponent()
+        return "value-" + tag
+    return thing
+
+
+OPS2 = [("Y", "H"), ("Y", "A"), ("Z", None)] + [("X", c, o) for c in ("H", "A", "onY") for o in ("value", "skip")]
+n_b = 0
+for k in range(1, (K if K >= 4 else 4) + 1):
+    for seq in itertools.product(OPS2, repeat=k):
+        seen_on_y = False
+        bad = False
+        for op in seq:
+            if op[0] == "X" and op[1] == "onY":
+                seen_on_y = True
+            if op[0] == "Y" and seen_on_y:
+                bad = True
+        if bad or not any(op[0] == "X" for op in seq):
+            continue
+        S2 = type("SpecsB%d" % next(uid), (SpecSet,), {"x": RegistryPoint(), "y": RegistryPoint(), "z": RegistryPoint()})
+        type("ImplY0_%d" % next(uid), (S2,), {"y": impl("y0", CTX["H"], "value")})          # y starts with a HostContext implementation
+        y_ctx = {HostContext}
+        x_impls = []
+        for pos, op in enumerate(seq):
+            tag = "i%d" % pos
+            if op[0] == "Y":
+                type("ImplY%d" % next(uid), (S2,), {"y": impl("y" + tag, CTX[op[1]], "value")})
+                y_ctx |= set(CTX[op[1]])
+            elif op[0] == "Z":
+                type("ImplZ%d" % next(uid), (S2,), {"z": impl_on("z" + tag, S2.y, "value")})
+            else:
+                if op[1] == "onY":
+                    type("ImplX%d" % next(uid), (S2,), {"x": impl_on(tag, S2.y, op[2])})
+                    x_impls.append((tag, set(y_ctx), op[2]))
+                else:
+                    type("ImplX%d" % next(uid), (S2,), {"x": impl(tag, CTX[op[1]], op[2])})
+                    x_impls.append((tag, set(CTX[op[1]]), op[2]))
+        for active in (HostContext, HostArchiveContext):
+            del CALLS[:]
+            broker = dr.Broker()
+            broker[active] = active()
+            try:
+                dr.run(dr.get_dependency_graph(S2.x), broker)
+            except Exception as ex:
+                fail(violation="evaluation raised", exc=repr(ex), sequence=list(seq), active=active.__name__)
+            n_b += 1
+            mine = [(t, o) for t, cs, o in x_impls if active in cs]
+            want_calls = [mine[-1][0]] if mine else []
+            want_val = ("value-" + mine[-1][0]) if mine and mine[-1][1] == "value" else None
+            got_calls = sorted(c for c in CALLS if c.startswith("i"))
+            if got_calls != want_calls or broker.get(S2.x) != want_val:
+                fail(violation="spec resolution differs from the reference (implementations bound to another spec)", sequence=list(seq), active=active.__name__,
+                     executed=got_calls, expected_executed=want_calls, value=broker.get(S2.x), expected_value=want_val)
+print(json.dumps({"ok": True, "evaluations_with_bound_implementations": n_b}))
